@@ -4,6 +4,7 @@ import Arp.Props.C12
 import Arp.Props.C14
 import Arp.Props.C09
 import Arp.Props.C08
+import Arp.Props.C15
 import Batteries.Tactic.Alias
 /-!
 # C19 — every operation is total: no panic, abort, stack exhaustion or hang
